@@ -1,13 +1,15 @@
 (* C04 - The CLVM-level optimiser preserves the meaning of any CLVM it is given.
    Property theorems only. Model: Opt/ClassicOpt.v (stage_2/optimize.rs as written, driver order and
    signedness of path reads regenerated from the source). Semantics: Clvm/Eval.v.
-   Status: the full statement is C04_sound_full below (visible, NOT proved in this round). Proved: the
-   soundness of five of the eight rewrite rules (incl. the path rule, with the path read as the generated
-   switch OPT_PATH_OPT_SIGNED says - the rule in which D3 lived) for every CLVM tree, environment and operator oracle
-   in which c/f/r are cons/first/rest, plus fuel monotonicity of evaluation and path composition. The
-   remaining rules (constant folding, variable change through sub_args, children)
-   and the driver loop are tied to the code by the correspondence check and decided by execution. *)
-From CV Require Import Base.Prelude Base.Val Base.Bytes Clvm.Path Clvm.Eval Clvm.Ops Opt.ClassicOpt Opt.ClassicOptProofs Opt.PathOptProofs.
+   Status: C04_sound_full (whenever the optimiser returns a program, it returns every value the original
+   returns - for every tree, environment, fuel and operator oracle in which c/f/r are cons/first/rest) is PROVED
+   for the model (C04_optimizer_sound), by induction over the driver loop from the soundness of each of the eight
+   rules. Attempting this proof exposed D31 (the variable-change rule optimised the head of a substituted
+   ((X) . operands) form as an expression), repaired in /repo; the guard is read back from the source
+   (OPT_VAR_CHANGE_SKIPS_NEW_PAIR_HEAD) and the proof needs it to be true. C04_accepts_full (the optimiser never
+   rejects a program that runs) is stated and NOT proved; it is decided by execution. The model omits the memo
+   table (it maps a tree to the result computed earlier for an equal tree). *)
+From CV Require Import Base.Prelude Base.Val Base.Bytes Clvm.Path Clvm.Eval Clvm.Ops Opt.ClassicOpt Opt.ClassicOptProofs Opt.PathOptProofs Opt.SubArgsProofs Opt.OptimizeSound.
 
 Definition cfr_oracle (opf : bytes -> val -> option val) : Prop :=
   (forall a b, opf [4] (Cons a (Cons b nilv)) = Some (Cons a b)) /\
@@ -22,6 +24,12 @@ Definition C04_sound_full : Prop :=
 Definition C04_accepts_full : Prop :=
   forall opf, cfr_oracle opf ->
   forall r e n v, eval opf n r e = Ok v -> forall fuel, optimize opf fuel r <> Failed.
+
+Theorem C04_optimizer_sound : C04_sound_full.
+Proof.
+  intros opf (H1 & H2 & H3) fuel r r' e n v Ho Hv.
+  exact (optimize_sound opf H1 H2 H3 fuel r r' Ho e n v Hv).
+Qed.
 
 Theorem C04_cons_rule_sound_partial : forall opf, cfr_oracle opf ->
   forall r e n v, eval opf n r e = Ok v -> exists m, eval opf m (cons_optimizer r) e = Ok v.
@@ -42,6 +50,12 @@ Proof. intros opf. apply apply_null_optimizer_sound. Qed.
 Theorem C04_path_rule_sound_partial : forall opf, cfr_oracle opf ->
   forall r e n v, eval opf n r e = Ok v -> exists m, eval opf m (path_optimizer r) e = Ok v.
 Proof. intros opf (H1 & H2 & H3). apply path_optimizer_sound; assumption. Qed.
+
+(* the substitution behind (a (q . SEXP) ARGS) => SEXP[paths := selections from ARGS] *)
+Theorem C04_sub_args_sound_partial : forall opf, cfr_oracle opf ->
+  forall n s ea v, eval opf n s ea = Ok v ->
+  forall a e na, eval opf na a e = Ok ea -> exists m, eval opf m (sub_args s a) e = Ok v.
+Proof. intros opf (H1 & H2 & H3). apply sub_args_sound; assumption. Qed.
 
 Theorem C04_eval_fuel_monotone : forall opf n p e v,
   eval opf n p e = Ok v -> forall m, (n <= m)%nat -> eval opf m p e = Ok v.
